@@ -197,13 +197,20 @@ class Results:
         self.driver_error = None
 
     def add_output(self, suite, text):
-        batch = []
-        for line in text.split("\n"):
+        self.add_lines(suite, text.split("\n"))
+
+    def add_lines(self, suite, lines):
+        """Consume harness output lines; correspondence cases go to the driver in chunks of bounded size."""
+        batch, vol = [], 0
+        for line in lines:
+            line = line.rstrip("\n")
             if not line: continue
             tag, _, rest = line.partition("\t")
             if tag == "C":
                 inp, _, real = rest.partition("\t")
-                batch.append((suite, inp, real))
+                batch.append((suite, inp, real)); vol += len(inp)
+                if len(batch) >= 20000 or vol >= 48 << 20:
+                    self._compare(batch); batch, vol = [], 0
             elif tag == "O":
                 self.noracle += 1
                 if len(self.oracle) < 400:
@@ -233,26 +240,56 @@ class Results:
                 self.ndis += 1
                 if len(self.dis) < 60: self.dis.append({"suite": suite, "input": inp, "real": real, "model": mod})
 
+    def merge(self, o):
+        """Fold in the partial result of one harness job (computed in a worker thread)."""
+        self.ncases += o.ncases; self.ndis += o.ndis; self.noracle += o.noracle
+        self.distinct.update(o.distinct)
+        if len(self.cases) < self.KEEP: self.cases += o.cases[: self.KEEP - len(self.cases)]
+        self.dis += o.dis[: max(0, 60 - len(self.dis))]
+        self.oracle += o.oracle[: max(0, 400 - len(self.oracle))]
+        self.known += o.known
+        for k, v in o.stats.items(): self.stats[k] = self.stats.get(k, 0) + v
+        self.samples += o.samples[: max(0, 8 - len(self.samples))]
+        self.crashed += o.crashed
+        self.driver_error = self.driver_error or o.driver_error
+
+
+_JOBSEQ = [0]
+
 
 def run_suite(binary, suite, seed, n, extra=(), timeout=3000):
+    """One harness job: its output goes to a scratch file under .build/tmp (never all in memory), is compared
+    with the model chunk by chunk in this worker, and only the partial Results comes back."""
     cmd = [binary, suite, "-seed", str(seed), "-n", str(n)] + list(extra)
+    tmpd = os.path.join(BUILD, "tmp"); os.makedirs(tmpd, exist_ok=True)
+    _JOBSEQ[0] += 1
+    path = os.path.join(tmpd, "job-%d-%d-%s-%d.out" % (os.getpid(), _JOBSEQ[0], suite, seed))
+    part = Results(); part.KEEP = 400
+    rc, err = 0, ""
     try:
-        p = subprocess.run(cmd, capture_output=True, text=True, timeout=timeout, env=GOENV)
-        return suite, p.returncode, p.stdout, p.stderr[-3000:]
-    except subprocess.TimeoutExpired as e:
-        return suite, -9, (e.stdout or b"").decode() if isinstance(e.stdout, bytes) else (e.stdout or ""), "timeout"
+        with open(path, "wb") as fo:
+            try:
+                p = subprocess.run(cmd, stdout=fo, stderr=subprocess.PIPE, timeout=timeout, env=GOENV)
+                rc, err = p.returncode, p.stderr.decode(errors="replace")[-3000:]
+            except subprocess.TimeoutExpired:
+                rc, err = -9, "timeout"
+        with open(path, "r", errors="replace") as fi:
+            part.add_lines(suite, fi)
+    finally:
+        try: os.remove(path)
+        except OSError: pass
+    if rc != 0:
+        part.crashed.append({"suite": suite, "rc": rc, "stderr": err})
+    return part
 
 
 def run_suites(res, jobs):
-    """jobs: list of (binary, suite, seed, n, extra). Run in parallel, collect."""
+    """jobs: list of (binary, suite, seed, n, extra). Run in parallel; each worker compares its own output
+    with the model, the partial results are merged here."""
     with cf.ThreadPoolExecutor(max_workers=max(2, NPROC - 2)) as ex:
         futs = [ex.submit(run_suite, *j) for j in jobs]
         for fu in cf.as_completed(futs):
-            suite, rc, out, err = fu.result()
-            res.add_output(suite, out)
-            del out
-            if rc != 0:
-                res.crashed.append({"suite": suite, "rc": rc, "stderr": err})
+            res.merge(fu.result())
 
 
 def split_jobs(binary, suite, seed, n, extra=(), parts=None):
